@@ -365,3 +365,5 @@ uint32_t vp_libc_strcmp(void *a, void *b)
     }
   return 0;
 }
+/* unsigned long is 64 bits wide on this target */
+uint64_t vp_libc_strtoul(void *nptr, void *endptr, uint32_t base) { return vp_libc_strtoull(nptr, endptr, base); }
